@@ -13,7 +13,10 @@ ap = argparse.ArgumentParser()
 ap.add_argument('--prop'); ap.add_argument('--name'); ap.add_argument('--tier', default='quick')
 ap.add_argument('--baseline', action='store_true', help='also run the package unit tests under the mutation')
 a = ap.parse_args()
-muts = json.load(open(os.path.join(VERIF, 'tools', 'mutations.json')))
+import glob
+muts = []
+for _f in sorted(glob.glob(os.path.join(VERIF, 'tools', 'mutations.d', '*.json'))):
+    muts += json.load(open(_f))
 if subprocess.run(['git', '-C', REPO, 'status', '--porcelain'], capture_output=True, text=True).stdout.strip():
     sys.exit('refusing: /repo has uncommitted changes')
 res = []
